@@ -44,3 +44,4 @@ if __name__ == "__main__":
     for p in regenerate():
         print("PROBLEM", p)
 import translate_c11
+import translate_suborder
